@@ -32,7 +32,7 @@ def run(ctx, replay):
     scr = os.path.join(ctx.scratch, "scr-repl")
     os.makedirs(scr, exist_ok=True)
     nh, nt, steps = (600, 300, 100) if thorough else (80, 60, 70)
-    summ, rc, _ = ctx.run_vdrive(["repl", "--seed", ctx.seed, "--histories", nh, "--tailloss", nt, "--steps", steps,
+    summ, rc, _ = ctx.run_vdrive(["repl", "--seed", ctx.seed, "--histories", nh, "--tailloss", nt, "--steps", steps, "--underround", 12 if thorough else 3,
                                   "--out", tr, "--scratch", scr], timeout=3000)
     for u in summ["unresolved"]:
         raise vcore.Unresolved("repl driver: %s" % u)
